@@ -154,6 +154,20 @@ def own_writes(tier: str, stats: Stats) -> list[Violation]:
                                                op=name.split('(')[0]),
                                           scenario='own-writes', labels=None)  # type: ignore[arg-type]
                             viols.setdefault(v.key(), v)
+                    # the stored last-handled state: written by diffbase.store only, and then equal to the essence
+                    # (otherwise the operator's own closing write is the next "change": handling triggers itself)
+                    st1, st2 = canon(cfg.stored(raw)), canon(cfg.stored(raw2))
+                    if name == 'diffbase.store' and st2 != canon(cfg.essence(raw2)):
+                        v = Violation('C04', 'self-trigger',
+                                      f"[{cfg.name}] {raw.get('kind')}: after diffbase.store the stored last-handled state reads {st2}, "
+                                      f"the essence is {canon(cfg.essence(raw2))}: the next event is a change again",
+                                      dict(kind='self-trigger', writer=cfg.name, objkind=raw.get('kind')), scenario='own-writes', labels=None)  # type: ignore[arg-type]
+                        viols.setdefault(v.key(), v)
+                    if name != 'diffbase.store' and st1 != st2:
+                        v = Violation('C04', 'last-handled-disturbed',
+                                      f"[{cfg.name}] {raw.get('kind')}: {name} changes the stored last-handled state {st1} -> {st2}",
+                                      dict(kind='last-handled-disturbed', writer=cfg.name, op=name.split('(')[0]), scenario='own-writes', labels=None)  # type: ignore[arg-type]
+                        viols.setdefault(v.key(), v)
                     if k2 not in seen:
                         seen.add(k2)
                         nxt.append(raw2)
